@@ -113,6 +113,14 @@ func c13writers(c *an.Ctx) {
 // invocations of a like-named method on an interface the receiver type implements.
 func usersOf(c *an.Ctx, target *ssa.Function) map[string]ssa.Instruction {
 	out := map[string]ssa.Instruction{}
+	for f, in := range userFuncsOf(c, target) {
+		out[an.FnName(f)] = in
+	}
+	return out
+}
+
+func userFuncsOf(c *an.Ctx, target *ssa.Function) map[*ssa.Function]ssa.Instruction {
+	out := map[*ssa.Function]ssa.Instruction{}
 	var recvT types.Type
 	if target.Signature.Recv() != nil {
 		recvT = target.Signature.Recv().Type()
@@ -127,12 +135,12 @@ func usersOf(c *an.Ctx, target *ssa.Function) map[string]ssa.Instruction {
 					continue
 				}
 				if f, ok := (*op).(*ssa.Function); ok && (f == target || f.Origin() == target) {
-					out[an.FnName(fn)] = in
+					out[fn] = in
 				}
 			}
 			if ci, ok := in.(ssa.CallInstruction); ok && ci.Common().IsInvoke() && recvT != nil && ci.Common().Method.Name() == target.Name() {
 				if it, ok := ci.Common().Value.Type().Underlying().(*types.Interface); ok && types.Implements(recvT, it) {
-					out[an.FnName(fn)] = in
+					out[fn] = in
 				}
 			}
 		})
@@ -156,6 +164,15 @@ func c13callers(c *an.Ctx) {
 		{"(*clientV2).TimedOutMessage", []string{"(*nsqd.Channel).processInFlightQueue"}, "in-flight decremented when the message times out"},
 		{"(*clientV2).PublishedMessage", []string{"(*nsqd.protocolV2).PUB", "(*nsqd.protocolV2).MPUB", "(*nsqd.protocolV2).DPUB"}, "per-topic publish counts"},
 	}
+	// functions that are themselves a counted transition (or one of its legitimate callers) are never "forwarding helpers"
+	transition := map[string]bool{"(*nsqd.Channel).RequeueMessage": true, "(*nsqd.Channel).TouchMessage": true, "(*nsqd.Channel).FinishMessage": true,
+		"(*nsqd.Channel).processInFlightQueue": true, "(*nsqd.Channel).processDeferredQueue": true, "(*nsqd.Channel).StartInFlightTimeout": true, "(*nsqd.Channel).StartDeferredTimeout": true}
+	for _, row := range table {
+		transition["(*nsqd."+strings.TrimPrefix(row.fn, "(*")] = true
+		for _, w := range row.callers {
+			transition[w] = true
+		}
+	}
 	for _, row := range table {
 		target := c.Fn("nsqd", row.fn)
 		if target == nil {
@@ -165,18 +182,40 @@ func c13callers(c *an.Ctx) {
 		for _, w := range row.callers {
 			want[w] = true
 		}
-		got := usersOf(c, target)
+		// roots: walk up through forwarding helpers (functions not in the table) to the functions that decide to count
+		roots := map[string]ssa.Instruction{}
+		seen := map[*ssa.Function]bool{}
+		var up func(f *ssa.Function, at ssa.Instruction, depth int)
+		up = func(f *ssa.Function, at ssa.Instruction, depth int) {
+			n := an.FnName(f)
+			if want[n] || transition[n] || depth >= 3 || seen[f] {
+				roots[n] = at
+				return
+			}
+			seen[f] = true
+			us := userFuncsOf(c, f)
+			if len(us) == 0 {
+				roots[n] = at
+				return
+			}
+			for u, in := range us {
+				up(u, in, depth+1)
+			}
+		}
+		for u, in := range userFuncsOf(c, target) {
+			up(u, in, 0)
+		}
 		var names []string
-		for n := range got {
+		for n := range roots {
 			names = append(names, n)
 		}
 		sort.Strings(names)
 		for _, n := range names {
-			c.Check(want[n], target, "caller of "+row.fn+": "+n, got[n].Pos(), "",
-				n+" calls "+row.fn+", which counts a transition ("+row.why+") that "+n+" does not perform: the counter drifts from the state it summarises")
+			c.Check(want[n], target, "caller of "+row.fn+": "+n, roots[n].Pos(), "",
+				n+" calls "+row.fn+" (directly or through a forwarding helper), which counts a transition ("+row.why+") that "+n+" does not perform: the counter drifts from the state it summarises")
 		}
 		for _, w := range row.callers {
-			if _, ok := got[w]; !ok {
+			if _, ok := roots[w]; !ok {
 				c.Bad(target, "caller of "+row.fn+": "+w, target.Pos(), w+" no longer calls "+row.fn+": the transition is not counted", nil)
 			}
 		}
